@@ -8,6 +8,9 @@
 #include "private/implementations.h"
 #include "randombytes.h"
 #include "runtime.h"
+#ifdef SODIUM_VERIF
+# include "private/verif.h"
+#endif
 
 #include "aegis256_soft.h"
 
@@ -17,9 +20,6 @@
 
 #if defined(HAVE_AVXINTRIN_H) && defined(HAVE_WMMINTRIN_H)
 #include "aegis256_aesni.h"
-#ifdef SODIUM_VERIF
-# include "private/verif.h"
-#endif
 #endif
 
 static const aegis256_implementation *implementation = &aegis256_soft_implementation;
